@@ -125,20 +125,30 @@ theorem reset_new (h : Params) : reset h (Row.new h) = Row.new h := by
 
 /-! ## monotone addresses on every input -/
 
-theorem traceLoop_mono (h : Params) (fuel : Nat) : ∀ (row : Row) (input : Bytes) (lo : Nat),
+theorem skipRow_end {row : Row} {inSeq : Bool} (hs : skipRow row inSeq = true)
+    (he : row.endSequence = true) : inSeq = false := by
+  unfold skipRow at hs
+  rw [he] at hs
+  cases inSeq <;> simp_all
+
+/-- the invariant of `next_row`: `lo` (address of the last returned row of the sequence, 0 at its
+start) is at most the address register, which is at most the mask; `in_sequence = false` means no
+row of the sequence has been returned, i.e. `lo = 0` -/
+theorem traceLoop_mono (h : Params) (fuel : Nat) : ∀ (row : Row) (inSeq : Bool) (input : Bytes) (lo : Nat),
     row.endSequence = false → lo ≤ row.address → row.address ≤ onesSized h.addrSize →
-    MonoTrace h.addrSize lo (traceLoop h fuel row input) := by
+    (inSeq = false → lo = 0) →
+    MonoObserved h.addrSize lo (traceLoop h fuel row inSeq input) := by
   induction fuel with
-  | zero => intro row input lo _ _ _; simp [traceLoop, MonoTrace]
+  | zero => intro row inSeq input lo _ _ _ _; simp [traceLoop, MonoObserved]
   | succ fuel ih =>
-    intro row input lo hes hlo hmask
+    intro row inSeq input lo hes hlo hmask hseq
     rw [traceLoop]
     split
-    · simp [MonoTrace]
+    · simp [MonoObserved]
     · split
-      · simp [MonoTrace]
-      · simp [MonoTrace]
-      · simp [MonoTrace]
+      · simp [MonoObserved]
+      · simp [MonoObserved]
+      · simp [MonoObserved]
       · rename_i ins rest _
         have hinv := execute_inv h row ins
         split
@@ -146,11 +156,12 @@ theorem traceLoop_mono (h : Params) (fuel : Nat) : ∀ (row : Row) (input : Byte
           rename_i row' e hex
           rw [hex] at hinv
           simp only [ne_eq, reduceCtorEq, not_false_eq_true, forall_const] at hinv
-          simp only [MonoTrace]
+          simp only [MonoObserved]
           apply ih
           · exact reset_endSequence h row'
           · rw [reset_address, hinv.2.2, hes]; simp; omega
           · rw [reset_address, hinv.2.2, hes]; simp; exact hinv.2.1 hmask
+          · exact hseq
         · rename_i row' hex
           rw [hex] at hinv
           simp only [ne_eq, reduceCtorEq, not_false_eq_true, forall_const] at hinv
@@ -158,78 +169,80 @@ theorem traceLoop_mono (h : Params) (fuel : Nat) : ∀ (row : Row) (input : Byte
           · rw [hinv.2.2]; exact hes
           · omega
           · exact hinv.2.1 hmask
+          · exact hseq
         · rename_i row' hex
           rw [hex] at hinv
           dsimp only at hinv
           have hb := hinv.2.1 hmask
           split
-          · simp only [MonoTrace]
+          · -- swallowed
+            rename_i hskip
+            simp only [MonoObserved]
             apply ih
             · exact reset_endSequence h row'
+            · rw [reset_address]
+              cases hE : row'.endSequence
+              · simp; omega
+              · have := hseq (skipRow_end hskip hE); simp; omega
             · rw [reset_address]; cases row'.endSequence <;> simp <;> omega
-            · rw [reset_address]; cases row'.endSequence <;> simp <;> omega
-          · simp only [MonoTrace]
+            · exact hseq
+          · simp only [MonoObserved]
             refine ⟨by omega, hb, ?_⟩
             apply ih
             · exact reset_endSequence h row'
             · rw [reset_address]; cases row'.endSequence <;> simp
             · rw [reset_address]; cases row'.endSequence <;> simp <;> omega
+            · cases row'.endSequence <;> simp
 
-theorem monoObserved_of_trace (size : Nat) (evs : List Ev) : ∀ lo,
-    MonoTrace size lo evs → NoHiddenEnd evs → MonoObserved size lo (evs.filter Ev.visible) := by
+theorem monoObserved_filter (size : Nat) (evs : List Ev) : ∀ lo,
+    MonoObserved size lo evs → MonoObserved size lo (evs.filter Ev.visible) := by
   induction evs with
-  | nil => intro lo _ _; simp [MonoObserved]
+  | nil => intro lo _; simp [MonoObserved]
   | cons e evs ih =>
-    intro lo hm hn
+    intro lo hm
     cases e with
     | row r =>
-      simp only [MonoTrace] at hm
-      simp only [NoHiddenEnd] at hn
+      simp only [MonoObserved] at hm
       simp only [List.filter, Ev.visible, MonoObserved]
-      exact ⟨hm.1, hm.2.1, ih _ hm.2.2 hn⟩
+      exact ⟨hm.1, hm.2.1, ih _ hm.2.2⟩
     | err e =>
-      simp only [MonoTrace] at hm
-      simp only [NoHiddenEnd] at hn
+      simp only [MonoObserved] at hm
       simp only [List.filter, Ev.visible, MonoObserved]
-      exact ih _ hm hn
+      exact ih _ hm
     | hidden r =>
-      simp only [MonoTrace] at hm
-      simp only [NoHiddenEnd] at hn
+      simp only [MonoObserved] at hm
       simp only [List.filter, Ev.visible]
-      rw [hn.1] at hm
-      exact ih _ hm hn.2
+      exact ih _ hm
     | stuck =>
-      simp only [MonoTrace] at hm
-      simp only [NoHiddenEnd] at hn
+      simp only [MonoObserved] at hm
       simp only [List.filter, Ev.visible, MonoObserved]
-      exact ih _ hm hn
+      exact ih _ hm
 
-theorem row_bound_of_trace (size : Nat) (evs : List Ev) : ∀ lo,
-    MonoTrace size lo evs → ∀ r, Ev.row r ∈ evs → r.address ≤ onesSized size := by
+theorem row_bound_of_observed (size : Nat) (evs : List Ev) : ∀ lo,
+    MonoObserved size lo evs → ∀ r, Ev.row r ∈ evs → r.address ≤ onesSized size := by
   induction evs with
   | nil => intro lo _ r hr; simp at hr
   | cons e evs ih =>
     intro lo hm r hr
     cases e with
     | row r' =>
-      simp only [MonoTrace] at hm
+      simp only [MonoObserved] at hm
       simp only [List.mem_cons, Ev.row.injEq] at hr
       rcases hr with rfl | hr
       · exact hm.2.1
       · exact ih _ hm.2.2 r hr
     | err e =>
-      simp only [MonoTrace] at hm
+      simp only [MonoObserved] at hm
       simp only [List.mem_cons, reduceCtorEq, false_or] at hr
       exact ih _ hm r hr
     | hidden r' =>
-      simp only [MonoTrace] at hm
+      simp only [MonoObserved] at hm
       simp only [List.mem_cons, reduceCtorEq, false_or] at hr
       exact ih _ hm r hr
     | stuck =>
-      simp only [MonoTrace] at hm
+      simp only [MonoObserved] at hm
       simp only [List.mem_cons, reduceCtorEq, false_or] at hr
       exact ih _ hm r hr
-
 
 /-! ## refinement of the Spec machine -/
 
@@ -385,23 +398,24 @@ theorem execute_spec (h : Params) (hv : h.Valid) (r : Regs) (i : Instr)
 
 
 /-- `traceLoop` on an already decoded program -/
-def traceInstrs (h : Params) : Row → List Instr → List Ev
-  | _, [] => []
-  | row, ins :: is =>
+def traceInstrs (h : Params) : Row → Bool → List Instr → List Ev
+  | _, _, [] => []
+  | row, inSeq, ins :: is =>
     match execute h row ins with
-    | (row, .err e) => .err e :: traceInstrs h (reset h row) is
-    | (row, .noEmit) => traceInstrs h row is
+    | (row, .err e) => .err e :: traceInstrs h (reset h row) inSeq is
+    | (row, .noEmit) => traceInstrs h row inSeq is
     | (row, .emit) =>
-      if row.tombstone then .hidden row :: traceInstrs h (reset h row) is
-      else .row row :: traceInstrs h (reset h row) is
+      if skipRow row inSeq then .hidden row :: traceInstrs h (reset h row) inSeq is
+      else .row row :: traceInstrs h (reset h row) (!row.endSequence) is
 
 /-- if the whole program decodes, running the bytes is running the decoded instructions -/
-theorem traceLoop_decodeAll (h : Params) (fuel : Nat) : ∀ (row : Row) (input : Bytes) (prog : List Instr),
-    decodeAll h fuel input = .ok prog → traceLoop h fuel row input = traceInstrs h row prog := by
+theorem traceLoop_decodeAll (h : Params) (fuel : Nat) :
+    ∀ (row : Row) (inSeq : Bool) (input : Bytes) (prog : List Instr),
+    decodeAll h fuel input = .ok prog → traceLoop h fuel row inSeq input = traceInstrs h row inSeq prog := by
   induction fuel with
-  | zero => intro row input prog hd; simp [decodeAll] at hd
+  | zero => intro row inSeq input prog hd; simp [decodeAll] at hd
   | succ fuel ih =>
-    intro row input prog hd
+    intro row inSeq input prog hd
     rw [decodeAll] at hd
     rw [traceLoop]
     split at hd
@@ -416,7 +430,7 @@ theorem traceLoop_decodeAll (h : Params) (fuel : Nat) : ∀ (row : Row) (input :
         split at hd <;> try (simp at hd)
         rename_i is hrest
         subst hd
-        have ih' := fun row => ih row rest is hrest
+        have ih' := fun row b => ih row b rest is hrest
         simp only [hp, traceInstrs, ih', Bool.false_eq_true, ↓reduceIte]
         cases hex : execute h row ins with
         | mk r' e => cases e <;> rfl
@@ -430,13 +444,13 @@ theorem ofRegs_afterRow (h : Params) (r : Regs) :
   cases hE : r.endSequence <;> simp [toRow, hE, init, Row.new]
 
 /-- **Well-formed programs**: the instruction-level Model produces exactly the Spec rows -/
-theorem traceInstrs_spec (h : Params) (hv : h.Valid) (prog : List Instr) : ∀ (r : Regs),
+theorem traceInstrs_spec (h : Params) (hv : h.Valid) (prog : List Instr) : ∀ (r : Regs) (inSeq : Bool),
     r.opIndex < h.maxOps → RegsOk h r = true → WFFrom h r prog = true →
-    traceInstrs h (toRow r) prog = (rowsFrom h r prog).map (fun x => Ev.row (toRow x)) := by
+    traceInstrs h (toRow r) inSeq prog = (rowsFrom h r prog).map (fun x => Ev.row (toRow x)) := by
   induction prog with
-  | nil => intro r _ _ _; simp [traceInstrs, rowsFrom]
+  | nil => intro r _ _ _ _; simp [traceInstrs, rowsFrom]
   | cons i is ih =>
-    intro r hop hr hwf
+    intro r inSeq hop hr hwf
     rw [WFFrom] at hwf
     simp only [Bool.and_eq_true] at hwf
     obtain ⟨⟨hi, hs⟩, hrest⟩ := hwf
@@ -451,9 +465,9 @@ theorem traceInstrs_spec (h : Params) (hv : h.Valid) (prog : List Instr) : ∀ (
         rw [hst] at hx
         simp only [↓reduceIte] at hx
         rw [hx.1]
-        simp only [toRow, Bool.false_eq_true, ↓reduceIte, List.map_cons]
+        simp only [skipRow, toRow, Bool.false_and, Bool.false_eq_true, ↓reduceIte, List.map_cons]
         congr 1
-        have := ih (afterRow h r') (by
+        have := ih (afterRow h r') (!r'.endSequence) (by
             unfold afterRow; split
             · simp [init]; obtain ⟨_, _, _, _, _, hm, _⟩ := hv; omega
             · exact hx.2) (by
@@ -470,7 +484,7 @@ theorem traceInstrs_spec (h : Params) (hv : h.Valid) (prog : List Instr) : ∀ (
         rw [hst] at hx
         simp only [Bool.false_eq_true, ↓reduceIte] at hx
         rw [hx.1]
-        exact ih r' hx.2 hrest.1 hrest.2
+        exact ih r' inSeq hx.2 hrest.1 hrest.2
 
 /-! ## special opcodes, closed form -/
 
